@@ -1,6 +1,9 @@
 import PfVerif.Proofs.C14_riv
 import PfVerif.Proofs.C14_rivB
 import PfVerif.Proofs.C14_rivC
+import PfVerif.Proofs.C14_rivD
+import PfVerif.Proofs.C14_rivE
+import PfVerif.Proofs.C14_rivF
 /-! # C14, extension `riv` — estuary classification, Manning river depth, DEM slope
 
 Theorems about the models of `lean/PfVerif/Model/C14_riv.lean` (`rivers.classify_estuary`, the
@@ -153,6 +156,51 @@ theorem estWalk_complete (ds : Array Nat) (cond : Nat → Bool) (init : Array In
     obtain ⟨f, hf⟩ := ih
     exact ⟨f + 1, by simp [estWalk, hp, hc, hf]⟩
 
+/-- **model = oracle (generic form).** For every network, every downstream-first order that covers the
+network, every link test and every 0/1 start array: the down-to-upstream sweep returns, at every cell
+of the order, the declarative class `estSpec` the driver evaluates - `0` unless the walk down the flow
+path (fuel `ds.size + 1`, proved sufficient) reaches an outlet through passing links only, `2` if some
+inflowing link found by exhaustive search fails the test, `1` otherwise. -/
+theorem estSweep_eq_spec (ds : Array Nat) (cond : Nat → Bool) (init : Array Int) (seq : List Nat)
+    (isOutlet : Nat → Bool) (htopo : Topo ds seq) (hb : ∀ i ∈ seq, i < init.size)
+    (hbd : ∀ i ∈ seq, i < ds.size) (h01 : ∀ j : Nat, init[j]! = 0 ∨ init[j]! = 1)
+    (hout : ∀ k, isOutlet k = true ↔ init[k]! ≠ 0) (hcov : ∀ c, isValid ds c = true → c ∈ seq) :
+    ∀ i ∈ seq, (estSweep ds cond seq init)[i]! = estSpec ds cond isOutlet i :=
+  estSweep_eq_estSpec ds cond init seq isOutlet htopo hb hbd h01 hout hcov
+
+/-- **`estModel_eq_spec`: `classify_estuary` = its declarative reading, on the whole array.** With
+`idxs_pit` the pits in index order (what `Flwdir.idxs_pit` holds; the driver reports `pits_ok`) and a
+downstream-first order that consists of exactly the cells of the network, the model of the kernel
+equals, cell for cell, the array the driver computes as `spec`: `estSpec` (outlets = pits with
+`elevtn ≤ max_elevtn`) on the cells of the network and `0` outside. No bound on the size; the fuel of
+the oracle's walk is proved sufficient (`Topo.reach_size_c14`). -/
+theorem estModel_eq_spec (ds : Array Nat) (seq : List Nat) (P : EstParams) (elevtn : Array Int)
+    (maxElev : Int) (htopo : Topo ds seq) (hb : ∀ i ∈ seq, i < ds.size)
+    (hcov : ∀ c, isValid ds c = true → c ∈ seq) (i : Nat) (hi : i < ds.size) :
+    (classifyEstuary ds seq (pitIndices ds) P elevtn maxElev)[i]! =
+      if isValid ds i then estSpec ds (estCond P ds) (fun k => isPit ds k && decide (elevtn[k]! ≤ maxElev)) i
+      else 0 := by
+  have hb' : ∀ i ∈ seq, i < (estInit ds.size (pitIndices ds) elevtn maxElev).size := by
+    intro i hi; rw [estInit_size]; exact hb i hi
+  have h01 : ∀ j : Nat, (estInit ds.size (pitIndices ds) elevtn maxElev)[j]! = 0 ∨
+      (estInit ds.size (pitIndices ds) elevtn maxElev)[j]! = 1 := by
+    intro j; rw [estInit_get]; split <;> simp
+  unfold classifyEstuary
+  by_cases hv : isValid ds i = true
+  · rw [if_pos hv]
+    exact estSweep_eq_estSpec ds (estCond P ds) _ seq _ htopo hb' hb h01
+      (estInit_outlet ds elevtn maxElev) hcov i (hcov i hv)
+  · rw [if_neg hv]
+    have hns : i ∉ seq := fun h => hv (Topo.valid_c14x htopo hb i h)
+    rw [estuary_outside ds (estCond P ds) _ seq htopo hb' h01 i hns]
+    have hno : ¬ (isPit ds i && decide (elevtn[i]! ≤ maxElev)) = true := by
+      intro h
+      simp only [isPit, Bool.and_eq_true, decide_eq_true_eq, beq_iff_eq] at h
+      apply hv
+      simp only [isValid, Bool.and_eq_true, decide_eq_true_eq, bne_iff_ne]
+      exact ⟨hi, by rw [h.1.2]; omega⟩
+    exact Classical.byContradiction fun h => hno ((estInit_outlet ds elevtn maxElev i).2 h)
+
 /-! ## Manning branch of `Flwdir.river_depth` -/
 
 /-- **local slope.** `dz`, `dx` are the differences with the downstream cell (with the cell itself
@@ -292,6 +340,122 @@ theorem river_depth_ge_min (ds : Array Nat) (seq : List Nat) (P : RdParams) (pw 
     minDph ≤ (riverDepth ds seq P pw minDph ndOut)[i]! := by
   rw [riverDepth_get ds seq P pw minDph ndOut i hi, if_neg hv]; omega
 
+/-- **monotone in the power-law value.** At a fixed cell (hence fixed slope) a larger value of the
+power law never gives a smaller depth: the only operations after the power law are the maximum with
+`min_rivdph` and the nodata mask. -/
+theorem river_depth_mono_pw (ds : Array Nat) (seq : List Nat) (P : RdParams) (pw pw' : Nat → Int × Int → Int)
+    (minDph ndOut : Int) (i : Nat) (hi : i < ds.size)
+    (h : pw i (rivslpFinal ds seq P)[i]! ≤ pw' i (rivslpFinal ds seq P)[i]!) :
+    (riverDepth ds seq P pw minDph ndOut)[i]! ≤ (riverDepth ds seq P pw' minDph ndOut)[i]! := by
+  rw [riverDepth_get ds seq P pw minDph ndOut i hi, riverDepth_get ds seq P pw' minDph ndOut i hi]
+  split
+  · exact Int.le_refl _
+  · exact int_max_mono _ _ _ h
+
+/-- **depth is non-decreasing in the bankfull discharge** (fixed network, water levels, distances,
+width, roughness). Rational model of `((manning·Q)/(√slope·w))^(3/5)`: `pow`, `sq` (root of the slope
+fraction) and `tok` (value ↦ ordered token) are parameters of which only monotonicity (`pow`, `tok`) is
+used; the roughness is non-negative and `√slope·w ≥ 0` at the cell. Holds for every network, every
+order and every field - the slope a cell uses does not depend on the discharge. -/
+theorem river_depth_mono_discharge (ds : Array Nat) (seq : List Nat) (P : RdParams) (pow : Rat → Rat)
+    (sq : Int × Int → Rat) (tok : Rat → Int) (hpow : ∀ a b, a ≤ b → pow a ≤ pow b)
+    (htok : ∀ a b, a ≤ b → tok a ≤ tok b) (manning q q' w : Array Rat) (minDph ndOut : Int) (i : Nat)
+    (hi : i < ds.size) (hn : 0 ≤ manning[i]!) (hd : 0 ≤ sq (rivslpFinal ds seq P)[i]! * w[i]!)
+    (hq : q[i]! ≤ q'[i]!) :
+    (riverDepth ds seq P (manningPw pow sq tok manning q w) minDph ndOut)[i]! ≤
+      (riverDepth ds seq P (manningPw pow sq tok manning q' w) minDph ndOut)[i]! :=
+  river_depth_mono_pw ds seq P _ _ minDph ndOut i hi
+    (htok _ _ (hpow _ _ (manningArg_mono_q _ _ _ _ _ hn hd hq)))
+
+/-- the same for the roughness coefficient (discharge non-negative). -/
+theorem river_depth_mono_manning (ds : Array Nat) (seq : List Nat) (P : RdParams) (pow : Rat → Rat)
+    (sq : Int × Int → Rat) (tok : Rat → Int) (hpow : ∀ a b, a ≤ b → pow a ≤ pow b)
+    (htok : ∀ a b, a ≤ b → tok a ≤ tok b) (manning manning' q w : Array Rat) (minDph ndOut : Int) (i : Nat)
+    (hi : i < ds.size) (hq : 0 ≤ q[i]!) (hd : 0 ≤ sq (rivslpFinal ds seq P)[i]! * w[i]!)
+    (hn : manning[i]! ≤ manning'[i]!) :
+    (riverDepth ds seq P (manningPw pow sq tok manning q w) minDph ndOut)[i]! ≤
+      (riverDepth ds seq P (manningPw pow sq tok manning' q w) minDph ndOut)[i]! :=
+  river_depth_mono_pw ds seq P _ _ minDph ndOut i hi
+    (htok _ _ (hpow _ _ (manningArg_mono_n _ _ _ _ _ hq hd hn)))
+
+/-- **depth is non-increasing in the river width** (fixed discharge and slope; `manning·Q ≥ 0`,
+`√slope > 0`, widths positive). -/
+theorem river_depth_anti_width (ds : Array Nat) (seq : List Nat) (P : RdParams) (pow : Rat → Rat)
+    (sq : Int × Int → Rat) (tok : Rat → Int) (hpow : ∀ a b, a ≤ b → pow a ≤ pow b)
+    (htok : ∀ a b, a ≤ b → tok a ≤ tok b) (manning q w w' : Array Rat) (minDph ndOut : Int) (i : Nat)
+    (hi : i < ds.size) (hnq : 0 ≤ manning[i]! * q[i]!) (hs : 0 < sq (rivslpFinal ds seq P)[i]!)
+    (hw : 0 < w[i]!) (hww : w[i]! ≤ w'[i]!) :
+    (riverDepth ds seq P (manningPw pow sq tok manning q w') minDph ndOut)[i]! ≤
+      (riverDepth ds seq P (manningPw pow sq tok manning q w) minDph ndOut)[i]! :=
+  river_depth_mono_pw ds seq P _ _ minDph ndOut i hi
+    (htok _ _ (hpow _ _ (manningArg_anti_den _ _ _ _ _ _ hnq (Rat.mul_pos hs hw)
+      (Rat.mul_le_mul_of_nonneg_left hww (Rat.le_of_lt hs)))))
+
+/-- **`river_slope_eq_spec`: the slope every cell uses = the declarative oracle, whole array.** The
+model works on scaled integers `S·dz/dx` and fills cells without a local slope by the up-to-downstream
+`fillnodata` sweep in the order `seq`; the oracle `rivslpSpec` the driver evaluates is independent of
+`S`, of `seq` and of the sweep: fractions `dz/dx`, for a cell without its own fraction the largest
+fraction among the cells that reach it through slope-less cells only (found by walking downstream from
+every cell with fuel `ds.size + 1` - proved sufficient), then the maximum with `min_rivslp`. For every
+network, every downstream-first order consisting of the cells of the network, all fields such that the
+scaled divisions are exact (`riverExact`, reported by the driver), `S, K, minDen > 0`, `min_rivslp >
+−9999`: both are the same fraction with positive denominators at every index of the array. -/
+theorem river_slope_eq_spec (ds : Array Nat) (seq : List Nat) (P : RdParams) (htopo : Topo ds seq)
+    (hb : ∀ i ∈ seq, i < ds.size) (hcov : ∀ c, isValid ds c = true → c ∈ seq)
+    (hS : 0 < P.S) (hK : 0 < P.K) (hD : 0 < P.minDen) (hmin : -9999 * P.minDen < P.minNum)
+    (hex : riverExact ds P = true) (j : Nat) (hj : j < ds.size) :
+    ((rivslpFinal ds seq P)[j]!).1 * (rivslpSpec ds P j).2 = (rivslpSpec ds P j).1 * ((rivslpFinal ds seq P)[j]!).2 ∧
+    0 < ((rivslpFinal ds seq P)[j]!).2 ∧ 0 < (rivslpSpec ds P j).2 :=
+  rivslpFinal_eq_spec_all ds seq P htopo hb hcov hS hK hD hmin hex j hj
+
+/-- **depth = depth through the oracle's slope.** For every power-law parameter that depends on the
+slope only as a fraction, the Manning depth of the model is `max(min_rivdph, pw(slope given by the
+flow-path definition))` inside the network and nodata outside. -/
+theorem river_depth_eq_spec (ds : Array Nat) (seq : List Nat) (P : RdParams) (pw : Nat → Int × Int → Int)
+    (hpw : ∀ i (s s' : Int × Int), 0 < s.2 → 0 < s'.2 → s.1 * s'.2 = s'.1 * s.2 → pw i s = pw i s')
+    (minDph ndOut : Int) (htopo : Topo ds seq)
+    (hb : ∀ i ∈ seq, i < ds.size) (hcov : ∀ c, isValid ds c = true → c ∈ seq)
+    (hS : 0 < P.S) (hK : 0 < P.K) (hD : 0 < P.minDen) (hmin : -9999 * P.minDen < P.minNum)
+    (hex : riverExact ds P = true) (i : Nat) (hi : i < ds.size) :
+    (riverDepth ds seq P pw minDph ndOut)[i]! =
+      if ds[i]! = ds.size then ndOut else max minDph (pw i (rivslpSpec ds P i)) := by
+  obtain ⟨h1, h2, h3⟩ := river_slope_eq_spec ds seq P htopo hb hcov hS hK hD hmin hex i hi
+  rw [riverDepth_get ds seq P pw minDph ndOut i hi, hpw i _ _ h2 h3 h1]
+
+/-- the driver's table parameter depends on the slope only as a fraction, so the depth the driver
+reports as `model.depth` is the depth through the oracle's slope (hypothesis `hpw` of
+`river_depth_eq_spec` discharged for `pwTable`). -/
+theorem river_depth_table_eq_spec (ds : Array Nat) (seq : List Nat) (P : RdParams) (cn cd tab : Array Int)
+    (minDph ndOut : Int) (htopo : Topo ds seq)
+    (hb : ∀ i ∈ seq, i < ds.size) (hcov : ∀ c, isValid ds c = true → c ∈ seq)
+    (hS : 0 < P.S) (hK : 0 < P.K) (hD : 0 < P.minDen) (hmin : -9999 * P.minDen < P.minNum)
+    (hex : riverExact ds P = true) (i : Nat) (hi : i < ds.size) :
+    (riverDepth ds seq P (pwTable ds.size cn cd tab) minDph ndOut)[i]! =
+      if ds[i]! = ds.size then ndOut else max minDph (pwTable ds.size cn cd tab i (rivslpSpec ds P i)) :=
+  river_depth_eq_spec ds seq P _ (fun i s s' h1 h2 h3 => pwTable_frac ds.size cn cd tab i s s' h1 h2 h3)
+    minDph ndOut htopo hb hcov hS hK hD hmin hex i hi
+
+/-- the three model = oracle theorems of this extension with the hypothesis "the order holds every cell
+of the network" in its executable form (`coversNet_c14`, the driver's output `cover`). -/
+theorem estModel_eq_spec_cover (ds : Array Nat) (seq : List Nat) (P : EstParams) (elevtn : Array Int)
+    (maxElev : Int) (htopo : Topo ds seq) (hb : ∀ i ∈ seq, i < ds.size)
+    (hcov : coversNet_c14 ds seq = true) (i : Nat) (hi : i < ds.size) :
+    (classifyEstuary ds seq (pitIndices ds) P elevtn maxElev)[i]! =
+      if isValid ds i then estSpec ds (estCond P ds) (fun k => isPit ds k && decide (elevtn[k]! ≤ maxElev)) i
+      else 0 :=
+  estModel_eq_spec ds seq P elevtn maxElev htopo hb (coversNet_sound_c14 ds seq hcov) i hi
+
+theorem river_depth_table_eq_spec_cover (ds : Array Nat) (seq : List Nat) (P : RdParams) (cn cd tab : Array Int)
+    (minDph ndOut : Int) (htopo : Topo ds seq) (hb : ∀ i ∈ seq, i < ds.size)
+    (hcov : coversNet_c14 ds seq = true)
+    (hyp : decide (0 < P.S ∧ 0 < P.K ∧ 0 < P.minDen ∧ -9999 * P.minDen < P.minNum) = true)
+    (hex : riverExact ds P = true) (i : Nat) (hi : i < ds.size) :
+    (riverDepth ds seq P (pwTable ds.size cn cd tab) minDph ndOut)[i]! =
+      if ds[i]! = ds.size then ndOut else max minDph (pwTable ds.size cn cd tab i (rivslpSpec ds P i)) := by
+  obtain ⟨hS, hK, hD, hmin⟩ := of_decide_eq_true hyp
+  exact river_depth_table_eq_spec ds seq P cn cd tab minDph ndOut htopo hb (coversNet_sound_c14 ds seq hcov)
+    hS hK hD hmin hex i hi
+
 /-! ## `dem.slope` -/
 
 /-- **cell rule.** A cell holding a value gets `hyp row gx gy` with the two finite-difference
@@ -354,6 +518,44 @@ theorem slope_interior (nrow ncol : Nat) (elev : Array Int) (nd : Int) (r c : Na
       hw 1 0 (r+1) c (by omega) (by omega) (by omega) (by omega) (by omega) (by omega)]
   exact ⟨rfl, rfl⟩
 
+/-- **corner cell.** North-west corner of a raster with at least two rows and columns whose three
+neighbours inside the raster hold values: the five window entries outside the raster are the centre
+value, so `gx = 3·e₀₀ − 2·e₀₁ − e₁₁`, `gy = 3·e₀₀ − 2·e₁₀ − e₁₁` (one-sided differences). -/
+theorem slope_nw_corner (nrow ncol : Nat) (elev : Array Int) (nd : Int) (hr : 2 ≤ nrow) (hc : 2 ≤ ncol)
+    (h01 : elev[1]! ≠ nd) (h10 : elev[ncol]! ≠ nd) (h11 : elev[ncol + 1]! ≠ nd) :
+    slopeGx nrow ncol elev nd 0 = 3 * elev[0]! - 2 * elev[1]! - elev[ncol + 1]! ∧
+    slopeGy nrow ncol elev nd 0 = 3 * elev[0]! - 2 * elev[ncol]! - elev[ncol + 1]! := by
+  have hd : 0 / ncol = 0 := Nat.zero_div ncol
+  have hm : 0 % ncol = 0 := Nat.zero_mod ncol
+  have ho : ∀ (dr dc : Int), dr = -1 ∨ dc = -1 → winAt nrow ncol elev nd 0 0 dr dc = elev[0]! := by
+    intro dr dc h
+    rw [winAt_outside nrow ncol elev nd 0 0 dr dc (by omega)]; simp
+  have h00 : winAt nrow ncol elev nd 0 0 0 0 = elev[0]! := by
+    rw [winAt_inside nrow ncol elev nd 0 0 0 0 (by omega)]; simp
+  have e01 : winAt nrow ncol elev nd 0 0 0 1 = elev[1]! := by
+    rw [winAt_inside nrow ncol elev nd 0 0 0 1 (by omega)]; simp [h01]
+  have e10 : winAt nrow ncol elev nd 0 0 1 0 = elev[ncol]! := by
+    rw [winAt_inside nrow ncol elev nd 0 0 1 0 (by omega)]; simp [h10]
+  have e11 : winAt nrow ncol elev nd 0 0 1 1 = elev[ncol + 1]! := by
+    rw [winAt_inside nrow ncol elev nd 0 0 1 1 (by omega)]; simp [h11]
+  simp only [slopeGx, slopeGy, gradX, gradY, hd, hm]
+  rw [ho (-1) (-1) (Or.inl rfl), ho (-1) 0 (Or.inl rfl), ho (-1) 1 (Or.inl rfl), ho 0 (-1) (Or.inr rfl),
+    ho 1 (-1) (Or.inr rfl), e01, e10, e11]
+  constructor <;> omega
+
+/-- **degenerate rasters (every cell is a border cell).** One row: `gy = 0`, `gx = 2·(W − E)`; one
+column: `gx = 0`, `gy = 2·(N − S)`, where W, E, N, S are the window entries (neighbour if inside and
+valid, else the centre). -/
+theorem slope_single_row (ncol : Nat) (elev : Array Int) (nd : Int) (i : Nat) (hi : i < ncol) :
+    slopeGy 1 ncol elev nd i = 0 ∧
+    slopeGx 1 ncol elev nd i = 2 * (winAt 1 ncol elev nd 0 i 0 (-1) - winAt 1 ncol elev nd 0 i 0 1) :=
+  slope_one_row ncol elev nd i hi
+
+theorem slope_single_col (nrow : Nat) (elev : Array Int) (nd : Int) (i : Nat) :
+    slopeGx nrow 1 elev nd i = 0 ∧
+    slopeGy nrow 1 elev nd i = 2 * (winAt nrow 1 elev nd i 0 (-1) 0 - winAt nrow 1 elev nd i 0 1 0) :=
+  slope_one_col nrow elev nd i
+
 /-- **flat windows have slope 0** (numerators): if the nine window entries are equal, both
 finite differences vanish. -/
 theorem slope_flat_window (nrow ncol : Nat) (elev : Array Int) (nd : Int) (i : Nat) (v : Int)
@@ -408,6 +610,16 @@ theorem slope_spec_eq (nrow ncol : Nat) (elev : Array Int) (nd : Int) (i : Nat) 
     slopeSpecGx nrow ncol elev nd i = slopeGx nrow ncol elev nd i ∧
     slopeSpecGy nrow ncol elev nd i = slopeGy nrow ncol elev nd i :=
   slopeSpec_eq nrow ncol elev nd i hi
+
+/-- **model = oracle, whole array (every interior, border and corner cell, every pattern of nodata
+neighbours, every raster shape incl. 1×N and N×1).** `dem.slope`'s model is, as an array, the
+padded-raster stencil oracle `slopeSpecModel` (ring of nodata around the raster, nodata replaced by the
+centre, masks `[1 0 −1; 2 0 −2; 1 0 −1]` / `[1 2 1; 0 0 0; −1 −2 −1]`, nodata where the centre is
+nodata), for every `hypot` parameter. -/
+theorem slope_model_eq_spec {α : Type} (hyp : Nat → Int → Int → α) (ndOut : α) (nrow ncol : Nat)
+    (elev : Array Int) (nd : Int) :
+    slopeModel hyp ndOut nrow ncol elev nd = slopeSpecModel hyp ndOut nrow ncol elev nd :=
+  slopeModel_eq_specModel hyp ndOut nrow ncol elev nd
 
 /-- **exact `hypot` (projected grids).** When the driver reports `exact = 1` the returned numerator
 satisfies `num² = (gx·xn·yd)² + (gy·yn·xd)²`, i.e. `(num/(xd·yd))² = (gx·xn/xd)² + (gy·yn/yd)²`:
@@ -498,5 +710,50 @@ example : (slopeModel (hypExact 1 8 1 8) (-9999, 1, 2) 3 4 (elevP.setIfInBounds 
   decide +kernel
 example : (slopeModel (hypExact 1 8 1 8) (-9999, 1, 2) 2 2 #[7, 7, -9999, 7] (-9999))[3]! = (0, 64, 1) := by
   decide +kernel
+
+/-- model = oracle on the estuary network (whole array, through the theorem's own right-hand side) -/
+example : (List.range 6).map (fun i => if isValid dsE i then
+      estSpec dsE (estCond PE dsE) (fun k => isPit dsE k && decide (#[0, 5, 5, 5, 5, 0][k]! ≤ (0 : Int))) i else 0) =
+    (classifyEstuary dsE seqE (pitIndices dsE) PE #[0, 5, 5, 5, 5, 0] 0).toList := by decide +kernel
+example : ∀ c, c < 6 → isValid dsE c = true → c ∈ seqE := by decide
+example : pitIndices dsE = [0] := by decide
+
+/-- monotone in the discharge: strict on a concrete instance (cell 2: Q 8 → 50), hypotheses met -/
+def sqR (s : Int × Int) : Rat := (s.1 : Rat) / (s.2 : Rat)
+def manR : Array Rat := #[1, 1, 1, 1, 1, 1]
+def wR : Array Rat := #[2, 2, 2, 2, 2, 2]
+example : (riverDepth dsR seqR PR (manningPw id sqR Rat.floor manR #[8, 8, 8, 8, 8, 8] wR) 3 (-1)).toList =
+    [8, 8, 8, 8, 4, -1] := by decide +kernel
+example : (riverDepth dsR seqR PR (manningPw id sqR Rat.floor manR #[8, 8, 50, 8, 8, 8] wR) 3 (-1)).toList =
+    [8, 8, 50, 8, 4, -1] := by decide +kernel
+example : (riverDepth dsR seqR PR (manningPw id sqR Rat.floor manR #[8, 8, 8, 8, 8, 8] #[2, 2, 8, 2, 2, 2]) 3 (-1)).toList =
+    [8, 8, 3, 8, 4, -1] := by decide +kernel
+example : (0 : Rat) ≤ sqR (rivslpFinal dsR seqR PR)[2]! * wR[2]! := by decide +kernel
+
+/-- whole-array slope oracle on the plane with a nodata cell -/
+example : slopeSpecModel (fun _ gx gy => (gx, gy)) (0, 0) 3 4 (elevP.setIfInBounds 6 (-9999)) (-9999) =
+    slopeModel (fun _ gx gy => (gx, gy)) (0, 0) 3 4 (elevP.setIfInBounds 6 (-9999)) (-9999) := by decide +kernel
+
+/-- slope model = oracle as fractions on the river network (model (4,8) vs oracle (2,4)); hypotheses met -/
+example : ((List.range 6).all fun j =>
+    decide (((rivslpFinal dsR seqR PR)[j]!).1 * (rivslpSpec dsR PR j).2 =
+      (rivslpSpec dsR PR j).1 * ((rivslpFinal dsR seqR PR)[j]!).2)) = true := by decide +kernel
+example : ∀ c, c < 6 → isValid dsR c = true → c ∈ seqR := by decide
+example : -9999 * PR.minDen < PR.minNum ∧ 0 < PR.S ∧ 0 < PR.K ∧ 0 < PR.minDen := by decide
+
+/-- corner / single-row instances -/
+example : slopeGx 3 4 elevP (-9999) 0 = 3 * 0 - 2 * 3 - 7 := by decide +kernel
+example : (List.range 4).map (slopeGx 1 4 #[5, 1, 9, 2] (-9999)) = [8, -8, -2, 14] ∧
+    (List.range 4).map (slopeGy 1 4 #[5, 1, 9, 2] (-9999)) = [0, 0, 0, 0] := by decide +kernel
+example : pwTable 2 #[1, 1] #[2, 4] #[10, 11, 20, 21] 1 (4, 8) = 11 ∧ pwTable 2 #[1, 1] #[2, 4] #[10, 11, 20, 21] 1 (2, 4) = 11 := by
+  decide +kernel
+
+/-- roughness 1 → 3 at cell 2 (strictly deeper); single column: `gx = 0`, `gy = 2·(N − S)` -/
+example : (riverDepth dsR seqR PR (manningPw id sqR Rat.floor #[1, 1, 3, 1, 1, 1] #[8, 8, 8, 8, 8, 8] wR) 3 (-1)).toList =
+    [8, 8, 24, 8, 4, -1] := by decide +kernel
+example : (List.range 4).map (slopeGy 4 1 #[5, 1, 9, 2] (-9999)) = [8, -8, -2, 14] ∧
+    (List.range 4).map (slopeGx 4 1 #[5, 1, 9, 2] (-9999)) = [0, 0, 0, 0] := by decide +kernel
+
+example : coversNet_c14 dsE seqE = true ∧ coversNet_c14 dsR seqR = true := by decide +kernel
 
 end Pf.C14x
